@@ -17,6 +17,12 @@ func CompareSolo(p *plan.Plan, mux *runner.Result, solos []*runner.Result, conn 
 	}
 	// a session whose exchange was cut short in the multiplexed run by the run's end
 	// is compared on the prefix it got to
+	killers := map[int]bool{}
+	for i, s := range solos {
+		if s != nil && s.Harness == "" && closesOnItsOwn(s) {
+			killers[conn[i]] = true
+		}
+	}
 	for i, s := range solos {
 		if s == nil || s.Harness != "" {
 			continue
@@ -45,6 +51,15 @@ func CompareSolo(p *plan.Plan, mux *runner.Result, solos []*runner.Result, conn 
 			}
 		}
 		if n < len(want) && c.sessionFullySent(conn[i], sess[i]) && !c.p.Scen.Faulty {
+			if killers[conn[i]] {
+				// one of the sessions sharing this connection makes the server close the
+				// connection even when it is the only session the server ever sees (a reused
+				// number, an even number, a key mismatch): in the multiplexed run the others
+				// are cut with it. The statement's premise is interleaving, not one session
+				// breaking the rules of the shared transport.
+				mux.Probes["solo-stood-down:a-session-ends-the-connection-by-itself"]++
+				continue
+			}
 			c.v("C09/missing-replies", "conn %d session %d: %d replies when multiplexed, %d when alone", conn[i], sess[i], n, len(want))
 		}
 	}
@@ -69,4 +84,18 @@ func (c *ctx) sessionFullySent(conn int, sess uint32) bool {
 		}
 	}
 	return c.allDelivered(conn)
+}
+
+// closesOnItsOwn: in this (solo) run the server closed connection 1 before the run was
+// drained, i.e. on account of what the session itself sent.
+func closesOnItsOwn(r *runner.Result) bool {
+	for _, e := range r.Events {
+		if e.Kind == "drain" {
+			return false
+		}
+		if e.Kind == "close" && e.Conn == 1 {
+			return true
+		}
+	}
+	return false
 }
